@@ -193,3 +193,18 @@ Fixpoint faces_b (a b : node) {struct a} : bool :=
          end) els els'
   | _, _ => true
   end.
+
+(* ---- a guard for the same finding that does not depend on which values the
+   comparison pairs up (the synchronised modes pair elements of different
+   positions): no null scalar in the first document, or the second document
+   is flat (none of its values is a container with content); and the two roots
+   do not clash themselves.  Inherited by every pair (child, child). ---- *)
+Definition children (n : node) : list node :=
+  match n with
+  | NLeaf _ _ => []
+  | NMap _ kvs => map snd kvs
+  | NSeq _ els => els
+  | NSet _ els => els
+  end.
+Definition flat (n : node) : bool := forallb (fun c => negb (has_content c)) (children n).
+Definition null_guard (a b : node) : bool := clash_b a b && (negb (has_null_leaf a) || flat b).
